@@ -30,6 +30,10 @@ type SchedCase struct {
 	Call    gx.Call        `json:"call"`
 	Gates   map[string]int `json:"gates,omitempty"` // rule -> obs.Free / obs.Yield / obs.Hold
 	QuiesMs int            `json:"quies_ms,omitempty"`
+	// Removed rules are part of the full build and removed (RemoveRules) before the
+	// incremental builds: they must never run, and the removal must not disturb what the
+	// later incremental builds and the call do.
+	Removed []models.Rule `json:"removed,omitempty"`
 	// Prior, if set, is executed (ungated) on the same engine / pool before the call under
 	// test: what a call does must not depend on how the engine was used before.
 	Prior *gx.Call `json:"prior,omitempty"`
@@ -105,6 +109,15 @@ var failStmts = []string{
 	"if 1 {\n    zz = 2\n  }",
 	"sl[9] = 1",
 	"zz = \"a\" * 2",
+	// a failing conc child beside a sibling that is still busy (parked on its own Hold gate
+	// "<rule>#c", reports CX when it ends): the rule is not over before the sibling is
+	"conc {\n    O.In.Boom()\n    cgate(@name)\n  }",
+	"conc {\n    cgate(@name)\n    zz = 1 / 0\n  }",
+}
+
+// slowConcChild reports whether the failing statement of the rule has a gated conc sibling.
+func slowConcChild(r models.Rule) bool {
+	return r.Fails && r.FailKind > 0 && r.FailKind < len(failStmts) && strings.Contains(failStmts[r.FailKind], "cgate(")
 }
 
 // genBoolText renders a side-effect free boolean condition with the given value from
@@ -165,6 +178,24 @@ func genBoolText(t *rapid.T, label string, want bool, depth int) string {
 	}
 }
 
+// removedText renders the rules that are removed again right after the full build; their
+// body reports STALE if it ever runs.
+func removedText(rs []models.Rule) string {
+	var b strings.Builder
+	for _, r := range rs {
+		fmt.Fprintf(&b, "rule %q %q salience %d\nbegin\n  S(@name)\n  STALE(@name)\n  E(@name)\nend\n", r.Name, "removed", r.Sal)
+	}
+	return b.String()
+}
+
+func removedNames(rs []models.Rule) []string {
+	var out []string
+	for _, r := range rs {
+		out = append(out, r.Name)
+	}
+	return out
+}
+
 func literal(v interface{}) string {
 	switch x := v.(type) {
 	case nil:
@@ -199,9 +230,10 @@ func rulesTextOld(rs []models.Rule, idx []int, oldSal map[int]int64) string {
 
 // schedEnv is the per-case observer.
 type schedEnv struct {
-	log   *obs.Log
-	gates *obs.Gates
-	tag   *engine.Stag
+	log    *obs.Log
+	gates  *obs.Gates
+	tag    *engine.Stag
+	retLen int // length of the log when the last call returned
 }
 
 // gatesForProbe returns the Gates object the injected gate function is bound to, reset so
@@ -224,6 +256,7 @@ func (e *schedEnv) apis() map[string]interface{} {
 		"gate":  func(n string) { e.gates.Enter(n) },
 		"STALE": func(n string) { e.log.Add("STALE", n, 0) },
 		"FX":    func(n string) { e.log.Add("F", n, 0) },
+		"cgate": func(n string) { e.gates.Enter(n + "#c"); e.log.Add("CX", n, 0) },
 		"O":     &FObj{V: 1, In: &FObj{V: 2}},
 		"sl":    []int64{1, 2},
 		"tt":    true,
@@ -250,9 +283,14 @@ func install(c *SchedCase, env *schedEnv) (*schedTarget, error) {
 		return nil, fmt.Errorf("case without builds")
 	}
 	if c.Pool {
-		p, err := engine.NewGenginePool(c.PoolMin, c.PoolMax, c.EM, rulesTextOld(c.Rules, c.Builds[0], c.OldSal), env.apis())
+		p, err := engine.NewGenginePool(c.PoolMin, c.PoolMax, c.EM, rulesTextOld(c.Rules, c.Builds[0], c.OldSal)+removedText(c.Removed), env.apis())
 		if err != nil {
 			return nil, fmt.Errorf("NewGenginePool: %v", err)
+		}
+		if len(c.Removed) > 0 {
+			if err := p.RemoveRules(removedNames(c.Removed)); err != nil {
+				return nil, fmt.Errorf("pool RemoveRules: %v", err)
+			}
 		}
 		for _, grp := range c.Builds[1:] {
 			if err := p.UpdatePooledRulesIncremental(rulesTextOld(c.Rules, grp, c.OldSal)); err != nil {
@@ -268,8 +306,13 @@ func install(c *SchedCase, env *schedEnv) (*schedTarget, error) {
 	}
 	dc.Add("stag", env.tag)
 	rb := builder.NewRuleBuilder(dc)
-	if err := rb.BuildRuleFromString(rulesTextOld(c.Rules, c.Builds[0], c.OldSal)); err != nil {
+	if err := rb.BuildRuleFromString(rulesTextOld(c.Rules, c.Builds[0], c.OldSal) + removedText(c.Removed)); err != nil {
 		return nil, fmt.Errorf("BuildRuleFromString: %v", err)
+	}
+	if len(c.Removed) > 0 {
+		if err := rb.RemoveRules(removedNames(c.Removed)); err != nil {
+			return nil, fmt.Errorf("RemoveRules: %v", err)
+		}
 	}
 	for _, grp := range c.Builds[1:] {
 		if err := rb.BuildRuleWithIncremental(rulesTextOld(c.Rules, grp, c.OldSal)); err != nil {
@@ -301,6 +344,7 @@ func runWithSchedule(x *Ctx, t *schedTarget, c gx.Call, gates map[string]int, qu
 	go func() {
 		defer close(done)
 		res = t.invoke(c)
+		env.retLen = env.log.Len()
 	}()
 	deadline := time.After(hangBound())
 loop:
@@ -442,6 +486,11 @@ func uni(t *rapid.T, label string, lo, hi int) int {
 // batch as additions and other replacements.
 func genBuildsReplacing(t *rapid.T, c *SchedCase) {
 	c.Builds = genBuilds(t, len(c.Rules))
+	if pct(t, "removed", 25) {
+		for i, n := 0, uni(t, "nremoved", 1, 2); i < n; i++ {
+			c.Removed = append(c.Removed, models.Rule{Name: fmt.Sprintf("x%d", i), Sal: genSal(t, fmt.Sprintf("remsal%d", i))})
+		}
+	}
 	if len(c.Builds) < 2 || !pct(t, "replacing", 70) {
 		return
 	}
@@ -538,6 +587,9 @@ func checkSched(x *Ctx, c *SchedCase) (*models.Input, bool) {
 		if r.NoSal {
 			x.Class("rule-without-salience-clause")
 		}
+		if len(c.Removed) > 0 && len(c.Builds) > 1 {
+			x.Class("remove-then-incremental-build")
+		}
 		if r.NoDesc {
 			x.Class("rule-without-description")
 		}
@@ -574,7 +626,35 @@ func checkSched(x *Ctx, c *SchedCase) (*models.Input, bool) {
 		env.tag.StopTag = false
 		env.gates.Reopen()
 	}
-	res := runWithSchedule(x, tg, c.Call, c.Gates, q)
+	gates := c.Gates
+	for _, r := range c.Rules {
+		if slowConcChild(r) {
+			if len(gates) == len(c.Gates) {
+				gates = map[string]int{}
+				for k, v := range c.Gates {
+					gates[k] = v
+				}
+			}
+			gates[r.Name+"#c"] = obs.Hold
+		}
+	}
+	res := runWithSchedule(x, tg, c.Call, gates, q)
+	for i, e := range env.log.Snapshot() {
+		// a failing rule with a gated conc sibling: the sibling must have ended when the call returns
+		if e.Kind == "F" && i < env.retLen {
+			if r, ok := ruleByName(c.Rules, e.Name); ok && slowConcChild(r) {
+				found := false
+				for j, e2 := range env.log.Snapshot() {
+					if e2.Kind == "CX" && e2.Name == e.Name && j < env.retLen {
+						found = true
+					}
+				}
+				if !found {
+					x.Violation("conc-child-outlives-call", "rule %q failed inside a conc block and the call returned while a sibling statement of the block was still running [call %s]", e.Name, c.Call)
+				}
+			}
+		}
+	}
 	in := &models.Input{Rules: c.Rules, Call: c.Call, EM: c.EM, Trace: env.log.Snapshot(), Err: res.Err != nil, Panic: res.Panic, Result: res.Map}
 	m, _ := gx.Lookup(c.Call.Method)
 	shape, _, _ := models.EffectiveShape(m, c.EM)
@@ -595,6 +675,15 @@ func checkSched(x *Ctx, c *SchedCase) (*models.Input, bool) {
 		x.Extra("result", fmt.Sprint(res.Map))
 	}
 	return in, true
+}
+
+func ruleByName(rs []models.Rule, n string) (models.Rule, bool) {
+	for _, r := range rs {
+		if r.Name == n {
+			return r, true
+		}
+	}
+	return models.Rule{}, false
 }
 
 func truncate(s string, n int) string {
